@@ -149,8 +149,46 @@ static void c_close(Chan& ch, int t, Prog* P) {
 }
 
 // ------------------------------------------------------------------------------------------------ settle detection
-// (multi-vCPU) every worker is done or has been seen SLEEPING inside a blocking call at two inspections 10 ms apart
-// without having advanced its operation counter
+// (multi-vCPU) every worker is done or is seen SLEEPING inside a blocking call at two inspections without having advanced
+// its operation counter.  Between the inspections at least 5 ms pass AND every vCPU is "pinged" several times: a photon
+// thread parked on each vCPU is woken through the same cross-vCPU resume path the channel's own wake-ups use and answers;
+// since a vCPU takes over all resumed threads at once, a wake-up that was issued before a ping has been delivered when the
+// ping is answered.  This makes "asleep" independent of how long the OS keeps a vCPU's thread off the processor (a resumed
+// thread still reads SLEEPING until its vCPU has run), and several rounds cover chains of wake-ups inside the calls.
+struct Pingers {
+    std::vector<std::unique_ptr<semaphore>> sem;
+    std::vector<std::unique_ptr<vtp::Worker>> th;
+    std::vector<std::unique_ptr<std::atomic<uint64_t>>> cnt;
+    std::atomic<bool> stop{false};
+    void start(vtp::Vcpus& vc) {
+        for (int v = 1; v < vc.n; v++) {
+            sem.emplace_back(new semaphore(0)); cnt.emplace_back(new std::atomic<uint64_t>(0));
+            th.emplace_back(new vtp::Worker()); auto w = th.back().get(); w->id = 200 + v;
+            semaphore* sm = sem.back().get(); auto c = cnt.back().get();
+            w->body = [this, sm, c] { while (true) { sm->wait(1); if (stop.load()) break; (*c)++; } };
+            vtp::spawn_on(w, vc.vc[v], 64 * 1024);
+        }
+    }
+    // returns false if a vCPU does not answer within 20 s
+    bool round() {
+        std::vector<uint64_t> want;
+        for (size_t i = 0; i < sem.size(); i++) { want.push_back(cnt[i]->load() + 1); sem[i]->signal(1); }
+        thread_yield();
+        for (int spins = 0; spins < 100000; spins++) {
+            bool all = true;
+            for (size_t i = 0; i < sem.size(); i++) if (cnt[i]->load() < want[i]) all = false;
+            if (all) return true;
+            thread_usleep(200);
+        }
+        return false;
+    }
+    void end() {
+        stop = true;
+        for (auto& s : sem) s->signal(1);
+        for (auto& w : th) thread_join(w->jh);
+    }
+};
+static Pingers g_ping;
 static bool settled(std::vector<vtp::Worker*>& ws, std::vector<Prog>& pg, std::vector<int>& blocked) {
     auto snap = [&](std::vector<int>& ops) {
         blocked.clear(); ops.clear();
@@ -165,9 +203,12 @@ static bool settled(std::vector<vtp::Worker*>& ws, std::vector<Prog>& pg, std::v
     std::vector<int> o1, o2, b1;
     if (!snap(o1)) return false;
     b1 = blocked;
-    thread_usleep(10 * 1000);
-    if (!snap(o2)) return false;
-    return o1 == o2 && b1 == blocked;
+    for (int k = 0; k < 6; k++) {
+        if (!g_ping.round()) return false;
+        thread_usleep(1000);
+        if (!snap(o2) || o1 != o2 || b1 != blocked) return false;
+    }
+    return true;
 }
 static bool wait_settle(std::vector<vtp::Worker*>& ws, std::vector<Prog>& pg, std::vector<int>& blocked, const char* what) {
     for (int spins = 0; spins < 20000; spins++) {
@@ -452,6 +493,7 @@ int main(int argc, char** argv) {
     set_log_output_level(ALOG_ERROR + 1);
     photon::init(photon::INIT_EVENT_EPOLL, photon::INIT_IO_NONE);
     g_vc.start(g_vcpus);
+    g_ping.start(g_vc);
     vtp::Watchdog wd; wd.start(20, prim.c_str());
     vt::Rng r(g_seed * 1000003 + 9);
     int rc = 0;
@@ -463,6 +505,7 @@ int main(int argc, char** argv) {
     wd.end();
     vt::close();
     if (rc) _exit(rc);      // a hung photon thread cannot be cleaned up
+    g_ping.end();
     g_vc.stop();
     photon::fini();
     return 0;
